@@ -210,8 +210,46 @@ def gen_rbc(rng):
                 params=dict(alpha=alpha, delta=delta, beta=beta, rho=rho),
                 eqs=["1/c = beta*(1/c{+1})*(alpha*z{+1}*k^(alpha-1) + 1 - delta)*exp(ec)",
                      "k = z*k{-1}^alpha + (1-delta)*k{-1} - c",
-                     "log(z) = rho*log(z{-1}) + ez"],
+                     "log(z) = rho*log(z{-1}) + ez" + rng.choice(["", " + 0.125*log(z{-2})", " - 0.125*log(z{-2}) + 0.0625*log(z{-3})"])],
                 meas=None, assign=dict(z=1.0, k=k, c=c))
+
+
+def gen_loglin(rng, forward=True):
+    """log-linear model, every variable a LOG-variable, lags up to 3 (the first-order state vector then holds lagged auxiliary entries
+    of log-variables) and, when forward, leads: contraction in logs"""
+    n = rng.randint(2, 3)
+    names = ["x", "y", "z"][:n]
+    eqs = []
+    long_lag_done = False
+    for i, v in enumerate(names):
+        terms = []
+        budget = 6
+        cands = [(v, -1)] + [(w, -1) for w in names if w != v and rng.chance(0.5)]
+        # a lag of 2 or 3 of some log-variable: always at least once per model
+        if not long_lag_done or rng.chance(0.4):
+            cands.append((rng.choice(names), -rng.choice([2, 2, 3])))
+            long_lag_done = True
+        if forward:
+            cands += [(w, +1) for w in names if rng.chance(0.6)] or [(rng.choice(names), +1)]
+        cands += [(w, 0) for w in names if w != v and rng.chance(0.4)]
+        rng.shuffle(cands)
+        long = [c_ for c_ in cands if c_[1] <= -2]
+        cands = long + [c_ for c_ in cands if c_[1] > -2]      # the long lag always gets its share of the budget
+        for (w, sh) in cands:
+            if budget <= 0:
+                break
+            k = rng.randint(1, min(2, budget)); budget -= k
+            c = k / 8.0 * (1 if rng.chance(0.7) else -1)
+            tok = w if sh == 0 else f"{w}{{{sh:+d}}}"
+            terms.append(f"{fmt(c)}*log({tok})")
+        if rng.chance(0.5):
+            terms.append(fmt(rng.choice([0.125, -0.125, 0.25])))
+        terms.append(f"e{v}")
+        eqs.append(f"log({v}) = " + " + ".join(terms).replace("+ -", "- "))
+    if forward and not any("{+" in e for e in eqs):
+        eqs[0] += f" + 0.125*log({names[-1]}{{+1}})"
+    return dict(kind="loglin-fwd" if forward else "loglin-bwd", linear=False, tvars=names, shocks=[f"e{v}" for v in names], exo=[], params={},
+                logvars=list(names), eqs=eqs, meas="obs = 100*log(x)" if rng.chance(0.4) else None, assign={v: 1.0 for v in names})
 
 
 def source_of(spec) -> str:
@@ -1123,8 +1161,13 @@ def compare_items(ctx: Ctx, items, replies):
 # entry points
 # ---------------------------------------------------------------------------------------
 
-def gen_spec(rng):
-    kind = rng.weighted([("lin-f", 4), ("lin-b", 3), ("poly-f", 2), ("poly-b", 1), ("rat-f", 1), ("rat-b", 1), ("solow", 1), ("rbc", 1)])
+KINDS = ["lin-f", "lin-b", "poly-f", "poly-b", "rat-f", "rat-b", "solow", "rbc", "loglin-f", "loglin-b"]
+
+
+def gen_spec(rng, kind=None):
+    if kind is None:
+        kind = rng.weighted([("lin-f", 4), ("lin-b", 3), ("poly-f", 2), ("poly-b", 1), ("rat-f", 1), ("rat-b", 1), ("solow", 1), ("rbc", 1),
+                             ("loglin-f", 2), ("loglin-b", 1)])
     if kind == "lin-f": return gen_linear(rng, True)
     if kind == "lin-b": return gen_linear(rng, False)
     if kind == "poly-f": return gen_poly(rng, True, False)
@@ -1132,6 +1175,8 @@ def gen_spec(rng):
     if kind == "rat-f": return gen_poly(rng, True, True)
     if kind == "rat-b": return gen_poly(rng, False, True)
     if kind == "solow": return gen_solow(rng)
+    if kind == "loglin-f": return gen_loglin(rng, True)
+    if kind == "loglin-b": return gen_loglin(rng, False)
     return gen_rbc(rng)
 
 
@@ -1162,7 +1207,7 @@ def run(ctx: Ctx):
     items = []
     for i in range(n_cases):
         rng = ctx.rng.fork(f"case{i}")
-        spec = gen_spec(rng)
+        spec = gen_spec(rng, KINDS[i] if i < len(KINDS) else None)     # every kind of program at least once, then at random
         try:
             m = build_model(spec)
         except Exception as e:
